@@ -544,7 +544,7 @@ def run(ctx, n=None, maxops=None):
                 'non-trivial = at least 6 primitive operations and (a second frame, a reallocation, or a trap/exit); '
                 'distinct by sequence hash; every sequence runs in the normal and in the ASan build')
     consts = constants()
-    n = n or ctx.budget(400, 30000)
+    n = n or ctx.budget(400, 20000)
     maxops = maxops or ctx.budget(45, 120)
     seqs = load_corpus()
     ncorpus = len(seqs)
